@@ -892,7 +892,7 @@ pub fn gen_case(rng: &mut Rng, opts: &GenOptions, prefix_gen: &mut dyn FnMut(&mu
         for _ in 0..n_deps {
             let j = *rng.pick(&later);
             let literal = resolver.spell(rng, &path, &paths[j]);
-            let shadow_block = i == 0 && rng.chance(1, 12);
+            let shadow_block = (i == 0 || opts.module_shadow) && rng.chance(1, 12);
             items.push(Item::Site { literal: literal.clone(), form: pick_form(rng), shadow_block });
             if rng.chance(1, 4) {
                 // the same file again, spelled differently
@@ -922,11 +922,13 @@ pub fn gen_case(rng: &mut Rng, opts: &GenOptions, prefix_gen: &mut dyn FnMut(&mu
             items.push(Item::Site { literal: (*rng.pick(&["./missing", "../nowhere/x.lua", "./sub/absent"])).to_owned(), form: Form::LocalParen, shadow_block: false });
         }
         if opts.defects && rng.chance(1, 12) {
-            let p = format!("{}/blob{}.bin", dirname(&path), i);
+            // unknown extension, or (since the fix of C05.F2) no extension at all
+            let ext = if rng.chance(1, 2) { ".bin" } else { "" };
+            let p = format!("{}/blob{}{}", dirname(&path), i, ext);
             if !extra_files.iter().any(|f| f.path == p) {
                 extra_files.push(FileSpec { path: p.clone(), kind: FileKind::Other });
             }
-            items.push(Item::Site { literal: format!("./blob{}.bin", i), form: Form::LocalParen, shadow_block: false });
+            items.push(Item::Site { literal: format!("./blob{}{}", i, ext), form: Form::LocalParen, shadow_block: false });
         }
         rng.shuffle(&mut items);
         if i == 0 && rng.chance(1, 10) {
